@@ -104,3 +104,35 @@ Definition d_addr (d : delivery) : addr := rcv_addr (d_who d).
 (* canonical output for the correspondence (the harness sorts both sides) *)
 Definition canon_delivery (d : delivery) : list Z :=
   match d with (r, s, dd, p) => canon_addr (rcv_addr r) ++ canon_addr s ++ canon_dest dd ++ [zN p] end.
+
+(* partial tables given as a list of (BBMD, listed BBMD) pairs *)
+Definition keep_list (l : list (addr * addr)) (b p : addr) : bool :=
+  existsb (fun x => addr_eqb (fst x) b && addr_eqb (snd x) p) l.
+Definition keep_all (b p : addr) : bool := true.
+
+(* decidable well-formedness (sound for BipDelivFacts.wf: BipDelivFacts.wf_b_sound) *)
+Fixpoint nodupb (l : list addr) : bool :=
+  match l with [] => true | x :: r => negb (existsb (addr_eqb x) r) && nodupb r end.
+Definition fwd_addr (s : sub) : addr := (fwd_ip (fst (sb_bbmd s)) (sb_mask s), snd (sb_bbmd s)).
+Definition wf_b (c : acfg) : bool :=
+  nodupb (all_addrs c) && nodupb (map sb_bcast (a_subs c))
+  && forallb (fun a => forallb (fun s => negb (addr_eqb a (sb_bcast s))) (a_subs c)) (all_addrs c)
+  && forallb (fun x => existsb (fun s => addr_eqb (snd x) (sb_bbmd s)) (a_subs c)) (a_fds c)
+  && forallb (fun s => addr_eqb (fwd_addr s) (sb_bbmd s) || addr_eqb (fwd_addr s) (sb_bcast s)) (a_subs c).
+
+(* sorted canonical list of the deliveries caused by the o-th node (order of all_rcvs) *)
+Fixpoint lex_leb (a b : list Z) : bool :=
+  match a, b with
+  | [], _ => true
+  | _ :: _, [] => false
+  | x :: a', y :: b' => if (x <? y)%Z then true else if (y <? x)%Z then false else lex_leb a' b'
+  end.
+Fixpoint insert_lex (x : list Z) (l : list (list Z)) : list (list Z) :=
+  match l with [] => [x] | y :: r => if lex_leb x y then x :: l else y :: insert_lex x r end.
+Definition sort_lex (l : list (list Z)) : list (list Z) := fold_right insert_lex [] l.
+Definition canon_deliv (c : acfg) (o : nat) (p : npdu) : list Z :=
+  match nth_error (all_rcvs c) o with
+  | Some r => let l := sort_lex (map canon_delivery (broadcast 0 c r p)) in
+              zb (wf_b c) :: zlen l :: flat_map (fun x => x) l
+  | None => [(-1)%Z]
+  end.
